@@ -2,6 +2,7 @@ package rules
 
 import (
 	"go/token"
+	"sort"
 	"strings"
 
 	"golang.org/x/tools/go/ssa"
@@ -20,6 +21,7 @@ func init() {
 			"UpdateSpec writes only after LoadYAML(spec)==nil and 'file exists' (C18.validate-then-write)",
 			"the saved definition is never the target of a truncating in-place write (write elsewhere, then rename) (C18.atomic-save)",
 			"client.Rename renames the history only after the file rename succeeded, keyed by old and new Location; DeleteDAG removes history (keyed by the DAG's location) and definition on the success path and returns the first error (C18.order)",
+			"effect table of the client's operations: create / rename / save / delete / status edit / suspend invoke only the mutating store methods they are about, reading operations none (C18.footprint)",
 			"the history store's Rename removes the old directory only non-recursively or when found empty (C18.rename-keeps-history); destructive history operations stay inside the DAG's own directory (C06.isolation shared)",
 		},
 		NotDec: []string{"sequences of operations against a reference model", "crash points other than the save; fsync durability", "races between check and write (create/rename are check-then-act)"},
@@ -30,6 +32,7 @@ func runC18(e *Env) {
 	c18Guards(e)
 	c18Order(e)
 	c18RenameKeepsHistory(e)
+	c18Footprint(e)
 	c06Isolation(e)
 }
 
@@ -382,6 +385,97 @@ func c18Order(e *Env) {
 		}
 		r.Check(okFirst && okSecond, "client.DeleteDAG: second removal only after the first succeeded; its error is returned", e.InstrPos(second),
 			"an error of one removal is ignored, or the second removal runs although the first failed")
+	}
+}
+
+// c18Footprint: effect table of the client's DAG-management operations. For each
+// operation the set of *mutating* store methods it can invoke (directly or
+// through static helpers of the client package) must stay inside the set the
+// operation is about: renaming never deletes history, deleting never touches
+// another store method, reading operations mutate nothing.
+func c18Footprint(e *Env) {
+	r := e.R
+	r.Rule("C18.footprint", "WMC (effect table)", "client operations invoke only the mutating store methods they are about", 6)
+	mutating := map[string]bool{
+		"HistoryStore.Open": true, "HistoryStore.Write": true, "HistoryStore.Close": true, "HistoryStore.Update": true,
+		"HistoryStore.RemoveAll": true, "HistoryStore.RemoveOld": true, "HistoryStore.Rename": true,
+		"DAGStore.Create": true, "DAGStore.Delete": true, "DAGStore.Rename": true, "DAGStore.UpdateSpec": true,
+		"FlagStore.ToggleSuspend": true,
+	}
+	allowed := map[string][]string{
+		"CreateDAG":     {"DAGStore.Create"},
+		"Rename":        {"DAGStore.Rename", "HistoryStore.Rename"},
+		"UpdateDAG":     {"DAGStore.UpdateSpec"},
+		"DeleteDAG":     {"HistoryStore.RemoveAll", "DAGStore.Delete"},
+		"UpdateStatus":  {"HistoryStore.Update"},
+		"ToggleSuspend": {"FlagStore.ToggleSuspend"},
+		// read-only operations
+		"GetDAGSpec": {}, "Grep": {}, "GetStatusByRequestID": {}, "GetLatestStatus": {}, "GetCurrentStatus": {}, "GetRecentHistory": {},
+		"GetAllStatus": {}, "GetAllStatusPagination": {}, "GetStatus": {}, "IsSuspended": {}, "GetTagList": {},
+	}
+	sp := e.P.Pkg("internal/client")
+	if sp == nil {
+		r.Unknown("package internal/client", "-", "not found")
+		return
+	}
+	effects := func(root *ssa.Function) map[string]ssa.Instruction {
+		out := map[string]ssa.Instruction{}
+		for _, f := range e.staticClosure(root) {
+			if rootFn(f).Package() != sp {
+				continue
+			}
+			for _, ci := range ir.CallsIn(f, func(c *ssa.CallCommon) bool { return c.IsInvoke() }) {
+				t := ir.NamedType(ci.Common().Value.Type())
+				if i := strings.LastIndex(t, "."); i >= 0 {
+					t = t[i+1:]
+				}
+				k := t + "." + ci.Common().Method.Name()
+				if mutating[k] {
+					if _, seen := out[k]; !seen {
+						out[k] = ci
+					}
+				}
+			}
+		}
+		return out
+	}
+	var names []string
+	for n := range allowed {
+		names = append(names, n)
+	}
+	sort.Strings(names)
+	for _, n := range names {
+		f := e.FnQuiet("internal/client", "(*client)."+n)
+		if f == nil {
+			continue // an operation that does not exist (any more) has no footprint
+		}
+		eff := effects(f)
+		var extra []string
+		var site ssa.Instruction
+		for k, ci := range eff {
+			ok := false
+			for _, a := range allowed[n] {
+				if a == k {
+					ok = true
+				}
+			}
+			if !ok {
+				extra = append(extra, k)
+				site = ci
+			}
+		}
+		sort.Strings(extra)
+		pos := e.Pos(f.Pos())
+		if site != nil {
+			pos = e.InstrPos(site)
+		}
+		want := "nothing"
+		if len(allowed[n]) > 0 {
+			want = strings.Join(allowed[n], ", ")
+		}
+		r.Check(len(extra) == 0, "client."+n+": mutates only through {"+want+"}", pos,
+			"the operation invokes a mutating store method that is not part of what it is for (e.g. a rename that removes history, a read that writes): with the right arguments it destroys or changes data of this or another DAG",
+			"unexpected: "+strings.Join(extra, ", "))
 	}
 }
 
